@@ -60,8 +60,8 @@ def segMt (s : Seg) (c : String) : List (String × Txt) :=
   [("OBJECT_NAME", .s s.name), ("OBJECT_ID", .s s.id), ("CENTER_NAME", .s c), ("REF_FRAME", .s s.frame), ("TIME_SYSTEM", .s s.scale)] ++
   segExtras s
 
-theorem meta_fold (s : Seg) (c : String) (st : OemSt) (D : List Seg) (h : closeSt st = .ok D) (hc : centreRule c s.frame = .ok s.frame) :
-    oemFold (metaKvn true s.name s.id c s.frame s.scale (segExtras s)) st =
+theorem meta_fold (s : Seg) (c r : String) (st : OemSt) (D : List Seg) (h : closeSt st = .ok D) (hc : centreRule c r = .ok s.frame) :
+    oemFold (metaKvn true s.name s.id c r s.scale (segExtras s)) st =
       .ok { st with done := D, cur := some (segMt s c, []), mode := "data" } := by
   obtain ⟨name, id, frame, scale, method, order, points⟩ := s
   simp only [metaKvn, if_true, List.cons_append, List.nil_append, oemFold, step_metaStart st D h]
@@ -238,34 +238,33 @@ theorem map_strip_of_none (P : List Point) (h : ∀ p ∈ P, p.cov = none) : P.m
     simp [hp, ih (fun q hq => h q (by simp [hq]))]
 
 /-- the lines written for a segment (what `segKvn` returns, the centre text being `c`) -/
-def segLines (s : Seg) (c : String) : List Line :=
-  metaKvn true s.name s.id c s.frame s.scale (segExtras s) ++
+def segLines (s : Seg) (c r : String) : List Line :=
+  metaKvn true s.name s.id c r s.scale (segExtras s) ++
     s.points.map (fun p => Line.row (p.epoch :: p.state)) ++
     (if (covBlocksKvn true s.points).isEmpty then [] else
       [Line.blank, .blank, .word "COVARIANCE_START"] ++ covBlocksKvn true s.points ++ [.word "COVARIANCE_STOP", .blank])
 
-theorem segKvn_ok (s : Seg) (h : SegWf s) : ∃ c, segKvn s = .ok (segLines s c) ∧ centreRule c s.frame = .ok s.frame := by
-  obtain ⟨c, r, hfo, hcr, _, _, hrf⟩ := frameOut_ok s.frame h.frame
-  subst hrf
+theorem segKvn_ok (s : Seg) (h : SegWf s) : ∃ c r, segKvn s = .ok (segLines s c r) ∧ centreRule c r = .ok s.frame := by
+  obtain ⟨c, r, hfo, hcr, _, _, _⟩ := frameOut_ok s.frame h.frame
   have hne : s.points.isEmpty = false := by
     cases hp : s.points with
     | nil => exact absurd hp h.points_ne
     | cons _ _ => rfl
-  exact ⟨c, by simp [segKvn, segLines, hne, hfo, bind, Except.bind, pure, Except.pure], hcr⟩
+  exact ⟨c, r, by simp [segKvn, segLines, hne, hfo, bind, Except.bind, pure, Except.pure], hcr⟩
 
 /-- one whole segment, from any state in which the segments so far close to `D` -/
-theorem seg_fold (s : Seg) (h : SegWf s) (c : String) (hc : centreRule c s.frame = .ok s.frame) (st : OemSt) (D : List Seg)
+theorem seg_fold (s : Seg) (h : SegWf s) (c r : String) (hc : centreRule c r = .ok s.frame) (st : OemSt) (D : List Seg)
     (hD : closeSt st = .ok D) :
-    ∃ st', oemFold (segLines s c ++ [Line.blank, .blank, .blank]) st = .ok st' ∧ closeSt st' = .ok (D ++ [s]) := by
+    ∃ st', oemFold (segLines s c r ++ [Line.blank, .blank, .blank]) st = .ok st' ∧ closeSt st' = .ok (D ++ [s]) := by
   obtain ⟨done, cur, mode, ce, cf, cr⟩ := st
-  have hm := meta_fold s c _ D hD hc
+  have hm := meta_fold s c r _ D hD hc
   have hr := rows_fold s.points h.points D (segMt s c) [] ce cf cr
   simp only [List.nil_append] at hr
   cases hemp : (covBlocksKvn true s.points).isEmpty with
   | true =>
     have hcv : covBlocksKvn true s.points = [] := List.isEmpty_iff.mp hemp
     have hP := map_strip_of_none s.points (covBlocks_nil s.points true hcv)
-    have hl : segLines s c ++ [Line.blank, .blank, .blank] = metaKvn true s.name s.id c s.frame s.scale (segExtras s) ++
+    have hl : segLines s c r ++ [Line.blank, .blank, .blank] = metaKvn true s.name s.id c r s.scale (segExtras s) ++
         (s.points.map (fun p => Line.row (p.epoch :: p.state)) ++ [Line.blank, .blank, .blank]) := by
       simp [segLines, hemp]
     have h3 : oemFold [Line.blank, .blank, .blank] ⟨D, some (segMt s c, s.points), "data", ce, cf, cr⟩ =
@@ -279,7 +278,7 @@ theorem seg_fold (s : Seg) (h : SegWf s) (c : String) (hc : centreRule c s.frame
   | false =>
     obtain ⟨ce', cf', cr', hcf⟩ := covs_fold s.frame h.frame D (segMt s c) (metaStr_segMt_frame s c) s.points [] true ce cf cr h.covs h.nodup
     simp only [List.nil_append] at hcf
-    have hl : segLines s c ++ [Line.blank, .blank, .blank] = metaKvn true s.name s.id c s.frame s.scale (segExtras s) ++
+    have hl : segLines s c r ++ [Line.blank, .blank, .blank] = metaKvn true s.name s.id c r s.scale (segExtras s) ++
         (s.points.map (fun p => Line.row (p.epoch :: p.state)) ++ ([Line.blank, .blank, .word "COVARIANCE_START"] ++
           (covBlocksKvn true s.points ++ [Line.word "COVARIANCE_STOP", .blank, .blank, .blank, .blank]))) := by
       simp [segLines, hemp]
@@ -301,12 +300,12 @@ theorem segs_fold (m : List Seg) (h : ∀ s ∈ m, SegWf s) :
       ∃ st', oemFold ((segs.map (· ++ [Line.blank, .blank, .blank])).flatten) st = .ok st' ∧ closeSt st' = .ok (D ++ m) := by
   induction m with
   | nil => exact ⟨[], rfl, fun st D hD => ⟨st, rfl, by simpa using hD⟩⟩
-  | cons s r ih =>
+  | cons s rest ih =>
     obtain ⟨segs, hsegs, hfold⟩ := ih (fun x hx => h x (by simp [hx]))
-    obtain ⟨c, hk, hc⟩ := segKvn_ok s (h s (by simp))
-    refine ⟨segLines s c :: segs, by simp [List.mapM_cons, hk, hsegs, bind, Except.bind, pure, Except.pure], ?_⟩
+    obtain ⟨c, r, hk, hc⟩ := segKvn_ok s (h s (by simp))
+    refine ⟨segLines s c r :: segs, by simp [List.mapM_cons, hk, hsegs, bind, Except.bind, pure, Except.pure], ?_⟩
     intro st D hD
-    obtain ⟨st1, h1, hD1⟩ := seg_fold s (h s (by simp)) c hc st D hD
+    obtain ⟨st1, h1, hD1⟩ := seg_fold s (h s (by simp)) c r hc st D hD
     obtain ⟨st2, h2, hD2⟩ := hfold st1 (D ++ [s]) hD1
     refine ⟨st2, ?_, by simpa using hD2⟩
     simp only [List.map_cons, List.flatten_cons, oemFold_append, h1, bind, Except.bind, h2]
